@@ -505,6 +505,24 @@ func runC08(c *core.Ctx, o Options) {
 	w.s.checkHandlersNeverCancel("W2", "the heartbeat goroutine leaves at its next wake-up although the session can be logged on again on the same connection, and never emits a Heartbeat again")
 	c.Explanation += " W2 premise: no registered message handler cancels the session context or stops the router on any path (the timers' goroutines end with the session, not with a message)."
 	c.Explanation += " W1 premise: SendBatch hands every element to DefaultHandler.send (retransmissions pass the refreshing handler too). W2 premise: no function of the library (session, handler, pools, bundled store) returns with a mutex it took still locked."
+	// W3 (premise): the interval the initiator announces in its Logon is the interval its timers are built from — the operand of
+	// SetFieldHeartBtInt in LogonRequest is s.LogonSettings.HeartBtInt itself (a clamped or defaulted value on the wire makes the
+	// peer expect another N than the one this side heartbeats with)
+	if lr := w.s.m.Method("LogonRequest"); lr != nil {
+		bad, n := "", 0
+		for _, t := range w.s.tr.Traces(lr, w.s.m.AllStates) {
+			for _, e := range eventsOf(t, "set") {
+				if e.Name != "SetFieldHeartBtInt" || len(e.Args) < 2 {
+					continue
+				}
+				n++
+				if r := e.R(e.Args[1]); r != "s.LogonSettings.HeartBtInt" {
+					bad = "SetFieldHeartBtInt operand is " + r
+				}
+			}
+		}
+		c.Check(bad == "" && n > 0, "W3", "LogonRequest", "the Logon request announces the configured HeartBtInt", lr.Pos(), "SetFieldHeartBtInt(s.LogonSettings.HeartBtInt)", bad+": the timers of start() are built from s.LogonSettings.HeartBtInt, so the session heartbeats with another interval than the one it announced")
+	}
 	// W3 (premise): the initiator's timers are started by the EventLogon subscriber Run registered first — subscribers run in
 	// registration order
 	checkEventPoolOrder(c, "W3")
